@@ -69,6 +69,11 @@ type sStep struct {
 	Slot int    `json:"slot,omitempty"` // withdraw
 	Pol  string `json:"pol,omitempty"`  // policy: accept | reject | set-lp
 	Tag  string `json:"tag,omitempty"`  // establish: first | late | again
+	// establish: a SECOND connection of the same neighbour arrives between the OPEN exchange and the KEEPALIVE of the
+	// connection that becomes the session (0 none; 1 it sits in OpenSent and the neighbour closes it afterwards;
+	// 2 it sends its OPEN while the first one is in OpenConfirm and loses the collision; 3 it sends its OPEN
+	// after the first one is Established and is refused)
+	Second int `json:"second,omitempty"`
 }
 
 type sessCase struct {
@@ -582,6 +587,15 @@ func genSessCase(rng *rand.Rand, i int) sessCase {
 		}
 	}
 	g.round(1, 1)
+	// second connections (drawn last, so that the rest of the case does not depend on them): two of three establishments
+	// of a peer that is expected to come up
+	for si := range c.Steps {
+		if st := &c.Steps[si]; st.K == "establish" && !c.Peers[st.Peer].Probe {
+			if x := rng.IntN(9); x < 6 {
+				st.Second = 1 + x%3
+			}
+		}
+	}
 	return c
 }
 
@@ -691,25 +705,108 @@ func openFor(p *speaker.Peer, cfg sPeer) *wire.Open {
 }
 
 // establishPeer connects and establishes; refused = bio-rd answered our OPEN with an OPEN Message Error.
-func establishPeer(p *speaker.Peer, cfg sPeer) (s *speaker.Session, refused bool, err error) {
+// second != 0: a second connection of the same neighbour is opened between the OPEN exchange and the KEEPALIVE (see
+// sStep.Second); withSecond reports that the choreography ran completely (the second connection was in OpenSent
+// while the first one was in OpenConfirm, and the first one became the session).
+func establishPeer(p *speaker.Peer, cfg sPeer, second int) (s *speaker.Session, refused, withSecond bool, err error) {
 	for attempt := 0; attempt < 5; attempt++ {
 		time.Sleep(time.Duration(attempt*attempt) * 25 * time.Millisecond)
 		s, err = p.Connect()
 		if err == nil {
-			err = s.Establish(openFor(p, cfg))
+			if second == 0 {
+				err = s.Establish(openFor(p, cfg))
+			} else {
+				withSecond, err = establishWithSecond(p, cfg, s, second)
+			}
 		}
 		if err == nil {
-			return s, false, nil
+			return s, false, withSecond, nil
 		}
 		if s != nil {
 			for _, n := range s.Notifications() {
 				if n.Code == 2 {
-					return s, true, err
+					return s, true, false, err
 				}
+			}
+			if !s.Conn.IsClosed() {
+				s.Conn.PeerClose()
 			}
 		}
 	}
-	return s, false, err
+	return s, false, false, err
+}
+
+// establishWithSecond is Session.Establish with a second incoming connection of the same neighbour in the window
+// between "OPENs exchanged" (first connection in OpenConfirm) and the KEEPALIVE that makes it Established. Both
+// connections are incoming, so RFC 4271 section 6.8 as bio-rd implements it always keeps the one that is further along.
+func establishWithSecond(p *speaker.Peer, cfg sPeer, a *speaker.Session, second int) (bool, error) {
+	if _, err := a.WaitSUTOpen(); err != nil {
+		return false, err
+	}
+	if !a.SendOpen(openFor(p, cfg)) {
+		return false, fmt.Errorf("connection closed before our OPEN")
+	}
+	if _, ok := a.WaitState(speaker.StepTimeout, func(i server.VerifFSMInfo) bool { return i.State == "openConfirm" || a.Conn.IsClosed() }); !ok || a.Conn.IsClosed() {
+		return false, fmt.Errorf("no OpenConfirm after our OPEN (state %s, closed=%v, notifications=%v)", a.State(), a.Conn.IsClosed(), a.Notifications())
+	}
+	// the second connection: Connect returns once its FSM published OpenSent (bio-rd sent its OPEN on it)
+	b, err := p.Connect()
+	if err != nil {
+		return false, fmt.Errorf("second connection: %v", err)
+	}
+	defer func() {
+		if !b.Conn.IsClosed() {
+			b.Conn.PeerClose()
+		}
+	}()
+	if _, err := b.WaitSUTOpen(); err != nil {
+		return false, fmt.Errorf("second connection: %v", err)
+	}
+	if st := b.State(); st != "openSent" {
+		return false, fmt.Errorf("second connection: state %q, want openSent", st)
+	}
+	if st := a.State(); st != "openConfirm" {
+		return false, fmt.Errorf("first connection left OpenConfirm (%q) when the second one came in", st)
+	}
+	loses := func() error {
+		// the second connection's OPEN: bio-rd has to close it (collision with a connection that is further along)
+		if !b.SendOpen(openFor(p, cfg)) || !b.Conn.WaitClosed(speaker.StepTimeout) {
+			return fmt.Errorf("second connection: bio-rd did not close it after its OPEN (state %s)", b.State())
+		}
+		return nil
+	}
+	if second == 2 {
+		if err := loses(); err != nil {
+			return false, err
+		}
+	}
+	if _, ok := a.WaitMessage(speaker.StepTimeout, func(m wire.Message) bool { return m.Type == wire.TypeKeepalive }); !ok {
+		return false, fmt.Errorf("no KEEPALIVE from bio-rd after our OPEN")
+	}
+	if !a.SendKeepalive() {
+		return false, fmt.Errorf("first connection closed before our KEEPALIVE (notifications=%v)", a.Notifications())
+	}
+	if r := a.Sync(); !r.OK() {
+		return false, fmt.Errorf("no synchronisation after KEEPALIVE (%v)", r)
+	}
+	if !a.Established() {
+		return false, fmt.Errorf("not established (state %s, closed=%v, notifications=%v)", a.State(), a.Conn.IsClosed(), a.Notifications())
+	}
+	switch second {
+	case 3:
+		if err := loses(); err != nil {
+			return false, err
+		}
+	default:
+		if !b.Conn.IsClosed() {
+			b.Conn.PeerClose()
+		}
+	}
+	// the losing connection's FSM leaves OpenSent on its own goroutine; the session must not care
+	if r := a.Sync(); !r.OK() || !a.Established() {
+		return false, fmt.Errorf("session did not survive the end of the second connection (%v, state %s)", r, a.State())
+	}
+	return true, nil
 }
 
 func runSessCase(idx int, raw json.RawMessage) (res batch.Result) {
@@ -893,7 +990,7 @@ func runSessCase(idx int, raw json.RawMessage) (res batch.Result) {
 			if lp.s != nil || lp.lost {
 				continue
 			}
-			s, refused, err := establishPeer(lp.p, lp.cfg)
+			s, refused, withSecond, err := establishPeer(lp.p, lp.cfg, st.Second)
 			if refused {
 				res.Seen("session_role_pairs_refused", rolePairName(lp.cfg))
 				refusedProbes++
@@ -919,6 +1016,16 @@ func runSessCase(idx int, raw json.RawMessage) (res batch.Result) {
 			res.Seen("session_role_pairs_established", rolePairName(lp.cfg))
 			res.Seen("session_peer_kinds", lp.cfg.Kind+fmt.Sprintf("/localAS%d", indexOfAS(c, lp.cfg.LocalAS)))
 			res.Count("session_establishments", 1)
+			if withSecond {
+				res.Count("session_establishments_with_second_connection", 1)
+				res.Seen("session_second_connection_kinds", []string{"", "waits-in-opensent", "open-before-keepalive", "open-after-established"}[st.Second])
+				if lp.spec.RoleAdv {
+					res.Count("session_role_sessions_with_second_connection", 1)
+				}
+			} else if st.Second != 0 {
+				res.Inconcl = fmt.Sprintf("step %d: peer %d came up, but not through the second-connection choreography", si, st.Peer)
+				return
+			}
 			events[after] = true
 		case "down":
 			if lp.s == nil {
@@ -1177,7 +1284,7 @@ func keysS(m map[string]bool) []string {
 // ---------------------------------------------------------------------------------------------
 // driver (called from main)
 
-const sessionRule = " || session half: one real bio-rd BGP server per case (random router id, local AS L) with 2-5 passive peers over in-memory connections — iBGP or route reflector client (own cluster id, or none = router id), eBGP under L, mostly a second eBGP peer under a DIFFERENT local AS L2 (2- or 4-octet), sometimes a second internal peer with another cluster id or a non-client configured with the client's cluster id (which then is the peer that flaps), every fourth case an eBGP peer with one of the 20 forbidden RFC 9234 role pairs (or strict mode without a role) that bio-rd must refuse; the established eBGP peers cycle through the 5 complementary role pairs, 5 × 'no role from the peer', roles off; IPv4 and (a third of the peers) IPv6. Script of 40-70 steps: establish, announce (1-2 NLRI per UPDATE, unique id community; about a third ineligible by one reason: a currently local ASN in an AS_SEQUENCE or AS_SET, ORIGINATOR_ID = router id, a currently local cluster id in CLUSTER_LIST, OTC from a customer / RS client / from a peer with a foreign AS, empty AS_PATH over eBGP; look-alikes that are eligible: the ASN / cluster id of a session that is down, foreign ORIGINATOR_ID, OTC the role pair allows), withdraw, import policy replaced through BGPServer.ReplaceImportFilterChain in bursts containing reject->accept, a peer taken down by NOTIFICATION and established again, one peer established late. After every step (Session.Sync for UPDATEs) both Loc-RIB dumps, the Adj-RIB-Out dumps of every established session and the UPDATEs bio-rd wrote are searched for ids judged ineligible when they were sent. distinct_nontrivial (keys session-N) = cases with >= 2 different ineligibility reasons, a policy replacement on a peer holding ineligible paths, a late or repeated establishment, and eligible paths seen in the Loc-RIB"
+const sessionRule = " || session half: one real bio-rd BGP server per case (random router id, local AS L) with 2-5 passive peers over in-memory connections — iBGP or route reflector client (own cluster id, or none = router id), eBGP under L, mostly a second eBGP peer under a DIFFERENT local AS L2 (2- or 4-octet), sometimes a second internal peer with another cluster id or a non-client configured with the client's cluster id (which then is the peer that flaps), every fourth case an eBGP peer with one of the 20 forbidden RFC 9234 role pairs (or strict mode without a role) that bio-rd must refuse; the established eBGP peers cycle through the 5 complementary role pairs, 5 × 'no role from the peer', roles off; IPv4 and (a third of the peers) IPv6. Script of 40-70 steps: establish, announce (1-2 NLRI per UPDATE, unique id community; about a third ineligible by one reason: a currently local ASN in an AS_SEQUENCE or AS_SET, ORIGINATOR_ID = router id, a currently local cluster id in CLUSTER_LIST, OTC from a customer / RS client / from a peer with a foreign AS, empty AS_PATH over eBGP; look-alikes that are eligible: the ASN / cluster id of a session that is down, foreign ORIGINATOR_ID, OTC the role pair allows), withdraw, import policy replaced through BGPServer.ReplaceImportFilterChain in bursts containing reject->accept, a peer taken down by NOTIFICATION and established again, one peer established late; two of three establishments run with a SECOND incoming connection of the same neighbour opened while the first one is in OpenConfirm (OPENs exchanged, KEEPALIVE not yet sent): it waits in OpenSent and is closed by the neighbour after the first one is Established, or sends its OPEN before the first one's KEEPALIVE (loses the collision), or sends its OPEN after the first one is Established (refused) — the session that comes up must judge paths exactly like one that came up alone. After every step (Session.Sync for UPDATEs) both Loc-RIB dumps, the Adj-RIB-Out dumps of every established session and the UPDATEs bio-rd wrote are searched for ids judged ineligible when they were sent. distinct_nontrivial (keys session-N) = cases with >= 2 different ineligibility reasons, a policy replacement on a peer holding ineligible paths, a late or repeated establishment, and eligible paths seen in the Loc-RIB"
 
 func sessionAssumptions(r *vf.Run) {
 	r.Assume("session half: a path is judged against the local ASNs / cluster ids derived from the CONFIGURATION of the sessions the harness holds Established at the moment the UPDATE is sent (never from the VRF's own state)",
@@ -1209,5 +1316,7 @@ func runSessions(r *vf.Run, replay json.RawMessage) {
 		r.Require("session_as_loop_with_two_local_asns", n/8)
 		r.Require("session_policy_replacements_over_ineligible_paths", n)
 		r.Require("session_peer_downs", n/2)
+		r.Require("session_establishments_with_second_connection", n*2)
+		r.Require("session_role_sessions_with_second_connection", n/3)
 	}
 }
